@@ -157,7 +157,13 @@ Section SEM.
   Definition agg_threshold (g : aggregator) : option Q :=
     let cv := g_num g ++ g_meas g in
     if String.eqb (g_attr g) "duration" then
-      match parse_duration_dec cv with Some (Some z) => Some (inject_Z z) | _ => None end
+      (* outside the modelled domain of time.ParseDuration (e.g. the bare "0" it accepts without a unit) the library value the
+         harness supplies: the text of float64(nanoseconds), as AggregatorPlanner.cmpVal (agg_cmp_text) uses it *)
+      match parse_duration_dec cv with
+      | Some (Some z) => Some (inject_Z z)
+      | Some None => None
+      | None => match g_durf g with Some s => num_of_text s | None => None end
+      end
     else if String.eqb (g_meas g) "" then
       (if lit_round then match agg_cmp_text g with Ok s => num_of_text s | _ => None end
        else match parse_dec (g_num g) with Some d => Some (dec_Q d) | None => None end)
